@@ -156,7 +156,7 @@ func runC11(c c11Case, o *vfutil.Obs) *vfutil.Failure {
 		}
 		return nil
 	}
-	cacheOff := false
+	cacheOff, pausedOnce := false, false
 	defer func() { l.s.cursors.disableCache = false }()
 	for _, op := range c.Ops {
 		switch op.Op {
@@ -275,15 +275,51 @@ func runC11(c c11Case, o *vfutil.Obs) *vfutil.Failure {
 			if st != nil {
 				return vfutil.Failf("harness/pause", "%v", st.Err())
 			}
+			pausedOnce = true
 			hist = append(hist, "pause-cursors")
 			o.Label("cursors-paused")
 		case "restart":
+			what := "restart"
+			if op.N%2 == 1 {
+				// a Raft snapshot first: the restarted server restores its metadata
+				// from the snapshot and has no operation to replay behind it
+				serr := make(chan error, 1)
+				go func() { serr <- l.s.getRaft().Snapshot().Error() }()
+				select {
+				case err := <-serr:
+					if err == nil {
+						what = "restart-from-snapshot"
+					}
+				case <-time.After(20 * time.Second):
+					return vfutil.Failf("harness/snapshot", "Raft snapshot did not finish within 20 s")
+				}
+			}
 			if err := l.restart(); err != nil {
 				return vfutil.Failf("C11/restart-error", "%v", err)
 			}
 			l.s.cursors.disableCache = cacheOff
-			hist = append(hist, "restart")
-			o.Label("restart")
+			hist = append(hist, what)
+			o.Label(what)
+			if !pausedOnce {
+				// bounded liveness: the restarted server answers fetches again (its
+				// cursors partitions have to lead again for that)
+				id, st, p := keyOf(0)
+				var lastErr error
+				answered := false
+				for deadline := time.Now().Add(20 * time.Second); time.Now().Before(deadline); {
+					ctx, cancel := ctxFor("", 5*time.Second)
+					_, lastErr = l.s.api.FetchCursor(ctx, &client.FetchCursorRequest{Stream: st, Partition: p, CursorId: id})
+					cancel()
+					if lastErr == nil {
+						answered = true
+						break
+					}
+					time.Sleep(20 * time.Millisecond)
+				}
+				if !answered {
+					return vfutil.Failf("C11/no-answer-after-"+what+"/bounded-liveness(20s)", "FetchCursor(%s,%s,%d) still fails 20 s after the %s: %v; history %v", id, st, p, what, lastErr, tailS(hist, 40))
+				}
+			}
 		}
 	}
 	// final sweep: every key, with the cache bypassed and through it
